@@ -382,6 +382,22 @@ func checkPanics(r *Report, a *Analysis, sc *Scope, fns []*ssa.Function, rule st
 			if msgDependent {
 				why = append(why, "no literal of the condition is over configuration/environment only")
 			}
+			// the test that immediately guards the panic decides whether it is an assertion about configuration or a reaction
+			// to the message: a panic directly behind a test of message content is message-dependent even if an unrelated
+			// configuration literal (a flag that is simply set) also happens to be necessary on the path
+			if !msgDependent && len(b.Preds) == 1 {
+				imm := fc.edgeCond(b.Preds[0], b)
+				var immMsg []string
+				for _, name := range B.Support(imm) {
+					if ai := a.Atoms[name]; ai != nil && !atomIsEnvironmental(fc, ai) {
+						immMsg = append(immMsg, name)
+					}
+				}
+				if len(immMsg) > 0 {
+					msgDependent = true
+					why = []string{"the panic is guarded directly by " + strings.Join(immMsg, ", ") + ", which depends on the presented message"}
+				}
+			}
 			if msgDependent {
 				r.Bad(rule, cons, p.InstrPos(pn), "explicit panic reachable under a condition that can depend on peer input: "+strings.Join(why, "; "))
 			} else {
